@@ -191,3 +191,11 @@ let () =
   register "py.file_wf" (function [tt; structs; protos; msgs; sg; a] ->
       vbool (PyRender.py_file_wf (rows tt) (strs structs) (strs protos) (strs msgs) (sigs3 sg) (dict a)) | _ -> failwith "arity");
   register "e.paren_clean" (function [s] -> S (EngineSM.paren_clean (str s)) | _ -> failwith "arity")
+
+(* any shipped file of the grammar, with the signature oracle *)
+let () =
+  register "d16.shipped_ref" (function [lines; tt; structs; protos; msgs; sg; a] ->
+      (match Parse16.shipped_ref (strs lines) (rows tt) (strs structs) (strs protos) (strs msgs) (sigs3 sg) (dict a) with
+       | Some s -> L [S s] | None -> L []) | _ -> failwith "arity");
+  register "d16.shipped_wf" (function [lines; tt; structs; protos; msgs; sg; a] ->
+      vbool (Parse16.shipped_wf (strs lines) (rows tt) (strs structs) (strs protos) (strs msgs) (sigs3 sg) (dict a)) | _ -> failwith "arity")
